@@ -3,7 +3,8 @@
     specification to the implementation by proof. *)
 From Coq Require Import ZArith NArith Lia List Bool Sorting.Permutation Sorting.Sorted.
 From RlibV Require Import Common.Batch C15.Model C15.Spec C15.Corr C15.ProofsMasks C15.ProofsMasksEnum
-  C15.ProofsPerm C15.ProofsIter C15.ProofsNb C15.ProofsCorrPerm C15.ProofsCorrMasks.
+  C15.ProofsPerm C15.ProofsIter C15.ProofsNb C15.ProofsCorrPerm C15.ProofsCorrMasks C15.ProofsTake C15.ProofsDirect
+  C15.ProofsDeposit.
 Import ListNotations.
 Open Scope Z_scope.
 
@@ -108,7 +109,8 @@ Qed.
 
 Theorem model_implies_spec : forall c : case, in_scope c -> model_check c = true -> spec_check c = true.
 Proof.
-  intros [w x out|w x out|d r out|d out|k n m i j out] Hsc Hm; cbn [model_check spec_check in_scope] in *.
+  intros [w x out|w x out|d r out|d out|k n m i j out|w x k out|w x k out|d k out] Hsc Hm;
+    cbn [model_check spec_check in_scope] in *.
   - destruct ((0 <=? w) && (0 <=? x) && (x <? 2 ^ w)) eqn:Eg; [|reflexivity]. cbn [negb].
     apply andb_true_iff in Eg. destruct Eg as [Eg E3]. apply andb_true_iff in Eg. destruct Eg as [E1 E2].
     apply Z.leb_le in E1, E2. apply Z.ltb_lt in E3.
@@ -122,7 +124,20 @@ Proof.
     destruct (iter_supermasks (Z.to_N w) (Z.to_N x)) as [l|] eqn:El; [|discriminate].
     apply leqb_N_eq in Hm. subst l. apply spec_sup_model; [lia|apply toN_lt; assumption|exact El].
   - pose proof (next_permutation_spec d) as Hs. destruct (next_permutation d) as [r' out']. cbn [fst snd] in Hs.
-    apply andb_true_iff in Hm. destruct Hm as [Hr Ho]. apply leqb_Z_eq in Ho. apply eqb_prop in Hr. subst. exact Hs.
+    apply andb_true_iff in Hm. destruct Hm as [Hr Ho]. apply leqb_Z_eq in Ho. apply eqb_prop in Hr. subst.
+    rewrite spec_next_direct_agrees, Hs. destruct (length d <=? 9)%nat; reflexivity.
   - rewrite iter_permutations_all_arrangements in Hm. apply leqb_ZZ_eq in Hm. subst out. apply leqb_ZZ_eq. reflexivity.
   - apply leqb_zz_eq in Hm. subst out. destruct (negb _); [reflexivity|apply spec_nb_model].
+  - destruct ((0 <=? w) && (0 <=? x) && (x <? 2 ^ w) && (0 <=? k)) eqn:Eg; [|reflexivity]. cbn [negb].
+    rewrite !andb_true_iff in Eg. destruct Eg as [[[E1 E2] E3] E4].
+    apply Z.leb_le in E1, E2, E4. apply Z.ltb_lt in E3.
+    rewrite !andb_true_iff in Hm. destruct Hm as [[_ Hnn] Hm]. rewrite Hnn. cbn [andb].
+    apply leqb_N_eq in Hm. rewrite <- Hm. apply spec_sub_pre_model; [lia|apply toN_lt; assumption].
+  - destruct ((0 <=? w) && (0 <=? x) && (x <? 2 ^ w) && (0 <=? k)) eqn:Eg; [|reflexivity]. cbn [negb].
+    rewrite !andb_true_iff in Eg. destruct Eg as [[[E1 E2] E3] E4].
+    apply Z.leb_le in E1, E2, E4. apply Z.ltb_lt in E3.
+    rewrite !andb_true_iff in Hm. destruct Hm as [[_ Hnn] Hm]. rewrite Hnn. cbn [andb].
+    apply leqb_N_eq in Hm. rewrite <- Hm. apply spec_sup_pre_model; [lia|apply toN_lt; assumption].
+  - apply andb_true_iff in Hm. destruct Hm as [Hk Hm]. rewrite Hk. cbn [negb].
+    apply leqb_ZZ_eq in Hm. subst out. apply spec_iter_pre_model.
 Qed.
